@@ -890,7 +890,9 @@ int func_gencode_freevars_expr(func * func_value, symtab * stab, expr * value, i
         break;
     case EXPR_FORIN:
         func_gencode_freevars_expr(func_value, stab, value->forin_value->in_value, result);
-        func_gencode_freevars_expr(func_value, stab, value->forin_value->do_value, result);
+        func_gencode_freevars_expr(func_value,
+                                   value->forin_value->stab != NULL ? value->forin_value->stab : stab,
+                                   value->forin_value->do_value, result);
         break;
     case EXPR_IFLET:
         func_gencode_freevars_iflet_expr(func_value, stab, value, result);
